@@ -213,6 +213,10 @@ func solveAll(results []*FuncResult, workDir string, quickSec, fullSec int, all 
 					// obligations after it are re-solved without its fact
 					qs, fs = 6, 6
 				}
+				if isKnownFailing(j.o.Name) && !all {
+					// listed as a known finding: one short attempt shows whether it still fails (it is never assumed)
+					qs, fs = 6, 6
+				}
 				best, _ := discharge(file, qs, fs, all)
 				j.o.Result = best.result
 				j.o.Backend = best.solver
